@@ -46,7 +46,7 @@ ORACLES (judge what the real formatter printed)
   opt.field.den <name> <short> <wrappers> <base> <outname> <outvalue: strs or ~ for a shorthand>  -> ok | diff
   opt.try.judge <opt> <path> <stmt> <args> <in toks: strs> <out toks: strs>   -> ok | diff:<expected>
         the printed tokens are the model's `TryOut.toks`, or the input's when the model declines
-  opt.tuple.same <n> <in: strs> <out: strs>             -> ok | diff      `tupleDen n` of both
+  opt.tuple.same <n> <in: strs> <out: strs>             -> ok | diff      where `tupleDen n in` is defined, `tupleDen n out` is the same
   opt.paren.hard <levels> <atom> <out levels> <out atom> -> ok | diff     `hard` of both, and the outer pair is kept
   opt.extern.read <ext> <text>                          -> ok | diff      `readExtern text` selects the ABI of `ext`
   opt.derive.same <attrs in> <attrs out>                -> ok | diff      `deriveSeqIn` of both
@@ -279,7 +279,11 @@ def handle (op : String) (args : List String) : Option String :=
         encStrs (condense opt items))).getD "err"
   | "opt.tuple.same", [n, a, b] => some <| (do
       let n ← n.toNat?
-      pure (ok (tupleDen n (← decStrs a) == tupleDen n (← decStrs b)))).getD "err"
+      let a ← decStrs a
+      let b ← decStrs b
+      pure (ok (match tupleDen n a with
+        | none => true
+        | some d => tupleDen n b == some d))).getD "err"
   | "opt.paren", [opt, levels, atom] => some <| (do
       pure (encChars ((← decPExpr levels atom).norm (← decBool opt)).render)).getD "err"
   | "opt.paren.hard", [l1, a1, l2, a2] => some <| (do
